@@ -317,8 +317,22 @@ def exactfill(cfg=None, reopen_ok=False):
             for n, z in sizes.items():
                 inv.setdefault(z, []).append(n)
             lens = [{'udf': inv[z][picks[(i + 5) % len(picks)] % len(inv[z])]} for i, z in enumerate(rec or [])]
-        adds = [{'k': 'add_fp', 'd': d, 'ns': 7, 'len': [0, 1, 1, 2049][picks[i % len(picks)] % 4], 'sz': 0, 'rsz': 0, 'usz': 0,
-                 'lead': picks[(i + 1) % len(picks)] % 3, 'salt': i, 'mode': None, 'ck': 0, 'file': False, 'xl': xl} for i, xl in enumerate(lens)]
+        adds = []
+        for i, xl in enumerate(lens):
+            as_dir = (picks[(i + 2) % len(picks)] + i) % 4 == 0
+            if as_dir and target_ns == 'iso':
+                # a directory identifier has no ';1': 3 characters shorter for the same record size (L=7 -> 4 .. L=11 -> 8)
+                L = xl['iso']
+                dl = {7: 7, 8: 8, 9: 8, 10: 8, 11: 8}[L] if (33 + L + (1 - L % 2)) == (33 + {7: 7, 8: 8, 9: 8, 10: 8, 11: 8}[L] + (1 - {7: 7, 8: 8, 9: 8, 10: 8, 11: 8}[L] % 2)) else None
+                if dl is None:
+                    as_dir = False
+                else:
+                    xl = {'iso': dl}
+            if as_dir:
+                adds.append({'k': 'add_dir', 'd': d, 'ns': 7, 'sz': 0, 'rsz': 0, 'usz': 0, 'lead': picks[(i + 1) % len(picks)] % 3, 'salt': i, 'mode': None, 'xl': xl})
+            else:
+                adds.append({'k': 'add_fp', 'd': d, 'ns': 7, 'len': [0, 1, 1, 2049][picks[i % len(picks)] % 4], 'sz': 0, 'rsz': 0, 'usz': 0,
+                             'lead': picks[(i + 1) % len(picks)] % 3, 'salt': i, 'mode': None, 'ck': 0, 'file': False, 'xl': xl})
         # the further entries sort after the recipe (lead 'Z' / 'z'), so the boundary stays exact
         extra = [dict(o, lead=25) for o in extra]
         # drawn insertion order (sorted order on disc is by name anyway)
